@@ -238,6 +238,11 @@ func regionClass(specs []*it) string {
 			}
 		}
 	}
+	for _, pairs := range involved {
+		if pairs > 1 {
+			class = "duplicated-providers-general" // an item in two such pairs (e.g. one refiner of two entities)
+		}
+	}
 	return class
 }
 
